@@ -128,6 +128,22 @@ def check_case(res, desc, tree):
         diff = libmap.deep_equal(x, y2)
     except Exception as exc:
         diff = 'raised %r' % (exc,)
+    if not diff:
+        # ... nor may the decoded object keep looking at the caller's receive buffer
+        buf = bytearray(b)
+        try:
+            y3 = cls.decode(memoryview(buf))
+        except Exception:
+            y3 = None                    # bytes-like input other than bytes is not promised
+        if y3 is not None:
+            res.count('oracle.decode-copies-its-input')
+            for k in range(len(buf)):
+                buf[k] = 0xEE
+            alias = libmap.deep_equal(x, y3)
+            if alias:
+                res.violation('decoded-object-aliases-the-input-buffer', 'C01.roundtrip',
+                              '%s decoded from a buffer changes when the buffer is re-used: %s' % (
+                                  cls.__name__, alias), desc)
     if diff:
         res.violation('decode-depends-on-earlier-decodes', 'C01.roundtrip',
                       '%s: second decode of the same bytes, after the first result was modified, '
